@@ -7,6 +7,11 @@ F-dto-4 (`ts-epoch-pre1970`, repaired by 4f99c94): `Timestamp::parse(EpochSecond
 F-dto-5 (`ts-epoch-f64-text`, repaired by 4f99c94): `format` went through `f64`; 1970-01-01T00:00:01.118Z
 was written `1.1179999999999999`, which denotes another instant and which `parse` refused.
 
+F-xml-7 (`xml-ts-format-panic`, found through component xml / property C13, repaired by 62f4e8c):
+`Timestamp::parse(DateTime)` accepted `9999-12-31T23:59:59-01:00`, whose instant is in the year 10000 of UTC;
+`Timestamp::format` fails on it and `utils::format::fmt_timestamp` unwraps that failure (panic in the XML
+serialiser). The positive statement is `C14_ts_parse_format_total`.
+
 The former counterexamples no longer hold (`C14_ts_epoch_roundtrip` is proved for all instants of the
 years 1 … 9999); what is kept here are the old witnesses as facts about the model of the repaired code.
 -/
@@ -46,5 +51,40 @@ theorem C14_regression_epoch_sign_spellings :
     parseEpochSeconds [45] = none ∧ parseEpochSeconds [45, 46, 53] = none ∧
     parseEpochSeconds [45, 45, 49] = none ∧ parseEpochSeconds [45, 43, 49] = none ∧
     parseEpochSeconds [45, 48] = some ⟨0, 0, 0⟩ := by decide +kernel
+
+/-- `9999-12-31T23:59:59-01:00` -/
+def tsYear10000 : Bytes :=
+  [57, 57, 57, 57, 45, 49, 50, 45, 51, 49, 84, 50, 51, 58, 53, 57, 58, 53, 57, 45, 48, 49, 58, 48, 48]
+
+/-- `0000-01-01T00:00:00+01:00` -/
+def tsYearMinus1 : Bytes :=
+  [48, 48, 48, 48, 45, 48, 49, 45, 48, 49, 84, 48, 48, 58, 48, 48, 58, 48, 48, 43, 48, 49, 58, 48, 48]
+
+/-- F-xml-7: `time` parses `9999-12-31T23:59:59-01:00` — the instant is 10000-01-01T00:59:59Z … -/
+theorem C14_regression_year10000_time_parses :
+    parseRfc3339Time tsYear10000 = some ⟨253402304399, 0, -3600⟩ := by decide +kernel
+
+/-- … which neither `Z` / `GMT` form can express: `Timestamp::format` fails (what `fmt_timestamp` unwrapped) … -/
+theorem C14_regression_year10000_unwritable :
+    formatDateTime ⟨253402304399, 0, -3600⟩ = none ∧ formatHttpDate ⟨253402304399, 0, -3600⟩ = none := by
+  decide +kernel
+
+/-- … so `Timestamp::parse` now refuses the text (before 62f4e8c: accepted) -/
+theorem C14_regression_year10000_refused : parseRfc3339 tsYear10000 = none := by decide +kernel
+
+/-- the other end: `0000-01-01T00:00:00+01:00` is an instant of the year −1; it was written
+    `-0001-12-31T23:00:00.000Z`, which no RFC 3339 reader accepts; the text is refused as well -/
+theorem C14_regression_year_minus1_refused :
+    (parseRfc3339Time tsYearMinus1).bind formatDateTime =
+      some [45, 48, 48, 48, 49, 45, 49, 50, 45, 51, 49, 84, 50, 51, 58, 48, 48, 58, 48, 48, 46, 48, 48, 48, 90] ∧
+    parseRfc3339 tsYearMinus1 = none := by decide +kernel
+
+/-- one hour inside either end the text is accepted and re-emitted in UTC:
+    `9999-12-31T22:59:59-01:00` ↦ `9999-12-31T23:59:59.000Z` -/
+theorem C14_regression_year9999_last_second :
+    (parseRfc3339 [57, 57, 57, 57, 45, 49, 50, 45, 51, 49, 84, 50, 50, 58, 53, 57, 58, 53, 57, 45, 48, 49, 58, 48, 48]).bind
+      formatDateTime =
+      some [57, 57, 57, 57, 45, 49, 50, 45, 51, 49, 84, 50, 51, 58, 53, 57, 58, 53, 57, 46, 48, 48, 48, 90] := by
+  decide +kernel
 
 end S3V.C14
